@@ -1692,6 +1692,114 @@ impl TransactionalMemory {
     }
 }
 
+// Read-only views of the allocator and of the volatile bookkeeping for the external verification
+// harness, plus direct access to the page allocator (cfg(redb_verif) only)
+#[cfg(redb_verif)]
+pub(crate) struct VerifRegion {
+    pub(crate) len: u32,
+    pub(crate) max_order: u8,
+    // order-0 pages not covered by any free block
+    pub(crate) allocated: Vec<u32>,
+    // per order: one entry per block, true = marked free at that order
+    pub(crate) free_bits: Vec<Vec<bool>>,
+}
+
+#[cfg(redb_verif)]
+pub(crate) struct VerifUnpersisted {
+    pub(crate) pages: Vec<PageNumber>,
+    pub(crate) allocations: Vec<(u64, Vec<PageNumber>)>,
+    pub(crate) data_freed: Vec<(u64, Vec<PageNumber>)>,
+    pub(crate) post_commit_allocations: Vec<PageNumber>,
+}
+
+#[cfg(redb_verif)]
+impl TransactionalMemory {
+    pub(crate) fn verif_regions(&self) -> Vec<VerifRegion> {
+        let state = self.state.lock().unwrap();
+        let mut result = vec![];
+        for i in 0..state.header.layout().num_regions() {
+            let region = state.get_region(i);
+            let allocated = (0..region.len())
+                .filter(|p| !region.verif_page_is_free(*p))
+                .collect();
+            let free_bits = (0..=region.get_max_order())
+                .map(|o| region.verif_free_bits(o))
+                .collect();
+            result.push(VerifRegion {
+                len: region.len(),
+                max_order: region.get_max_order(),
+                allocated,
+                free_bits,
+            });
+        }
+        result
+    }
+
+    // per order: one entry per tracked region, true = marked full
+    pub(crate) fn verif_tracker(&self) -> Vec<Vec<bool>> {
+        let state = self.state.lock().unwrap();
+        let tracker = &state.allocators().region_tracker;
+        (0..tracker.verif_orders())
+            .map(|o| tracker.verif_full_bits(o))
+            .collect()
+    }
+
+    pub(crate) fn verif_unpersisted(&self) -> VerifUnpersisted {
+        let unpersisted = self.unpersisted.lock().unwrap();
+        VerifUnpersisted {
+            pages: unpersisted.pages.iter().copied().collect(),
+            allocations: unpersisted
+                .allocations
+                .iter()
+                .map(|(id, pages)| (id.raw_id(), pages.iter().copied().collect()))
+                .collect(),
+            data_freed: unpersisted
+                .data_freed
+                .iter()
+                .map(|(id, pages)| (id.raw_id(), pages.clone()))
+                .collect(),
+            post_commit_allocations: unpersisted
+                .post_commit_allocations
+                .iter()
+                .copied()
+                .collect(),
+        }
+    }
+
+    // (regions, pages of a full region, page size, layout length in bytes)
+    pub(crate) fn verif_layout(&self) -> (u32, u32, u32, u64) {
+        let state = self.state.lock().unwrap();
+        let layout = state.header.layout();
+        (
+            layout.num_regions(),
+            layout.full_region_layout().num_pages(),
+            self.page_size,
+            layout.len(),
+        )
+    }
+
+    pub(crate) fn verif_page_offset(&self, page: PageNumber) -> (u64, u64) {
+        let range = page.address_range(
+            self.page_size.into(),
+            self.region_size,
+            self.region_header_with_padding_size,
+            self.page_size,
+        );
+        (range.start, range.end)
+    }
+
+    // Allocates a block of 2^order pages outside of any transaction
+    pub(crate) fn verif_allocate(&self, order: u8, lowest: bool) -> Result<PageNumber> {
+        let size = self.get_page_size() << order;
+        let page = self.allocate_helper(size, lowest)?;
+        Ok(page.get_page_number())
+    }
+
+    pub(crate) fn verif_free(&self, page: PageNumber) {
+        self.free(page, &PageTracker::ignore());
+    }
+}
+
 #[cfg(test)]
 mod test {
     use crate::tree_store::page_store::page_manager::INITIAL_REGIONS;
